@@ -71,6 +71,9 @@ class RelativeJumpOpcode(OpcodeWithoutOperand):
         from a816.parse.nodes import ExpressionNode
 
         if isinstance(value_node, ExpressionNode):
+            if resolver.reloc_address.physical is None:
+                # running from ram (@=): resolver.pc is the storage offset, not where the branch executes.
+                raise RuntimeError("Jumping from ram is not supported.")
             pc = resolver.pc
             physical_destination = resolver.get_bus().get_address(value).physical
 
